@@ -12,8 +12,8 @@ RULE = ('pairs (and sampled triples) of queries - running balance referenced 0..
         'references, aggregates, IN-subqueries, parameters - executed by threads on ONE shared connection and on separate '
         'connections; a scheduler parks every thread at `vp_yield` (a pass-through BQL function registered by the harness) and '
         'releases them following an explicit schedule: ALL interleavings for 2 threads x 2 yield points each (6 schedules) on '
-        'the first rows, seeded random schedules beyond; every result is compared with the serial execution.  A shared-state '
-        'audit fingerprints module-level containers and table objects before/after.  Thorough adds unscheduled stress runs '
+        'the first rows, seeded random schedules beyond, scheduling points at statement start, inside compilation (folded call), between execute() and reading the result; one parsed statement executed by two threads; a deeply nested statement parsed while another ends; every result is compared with the serial execution.  A shared-state '
+        'audit fingerprints module-level and class-level containers, table objects, the loaded directives and interpreter-wide settings (recursion limit, decimal contexts, locale) before/after.  Thorough adds unscheduled stress runs '
         '(testing, not proof).  Non-trivial = two threads whose yield points interleave; distinct = distinct (queries, schedule).')
 ASSUMPTIONS = ['interleaving granularity is column evaluation / yield-function boundaries, not CPython bytecodes (partial by construction)']
 
